@@ -45,6 +45,12 @@ Bad_SharedCapacity(P, G)   == {p \in DOMAIN P : PromisedShared(P, G, p) > 1000 *
 Bad_ReservedCapacity(P, G) == {p \in DOMAIN P : PromisedReserved(P, G, p) > 1000 * Cardinality(P[p].frsv)}
 \* isolated CPUs only when all of the exclusive CPUs are isolated
 Bad_IsolatedAllOrNone(G) == {c \in DOMAIN G : G[c].isol # {} /\ G[c].isol # G[c].excl}
+\* the same, with the kernel-isolated CPUs taken from the machine instead of from the grant's own classification
+Bad_IsolatedAllOrNoneOf(G, iso) == {c \in DOMAIN G : G[c].excl \cap iso # {} /\ ~(G[c].excl \subseteq iso)}
+\* kernel-isolated CPUs are never part of a pool's sharable set (they are only handed out as isolated exclusive CPUs)
+Bad_SharedHasIsolated(P, iso) == {p \in DOMAIN P : P[p].fshar \cap iso # {}}
+\* ... and nobody is told an isolated CPU except as (part of) its own isolated exclusive grant
+Bad_ToldIsolated(G, T, iso) == {c \in DOMAIN T : (T[c] \cap iso) \ (IF c \in DOMAIN G THEN G[c].excl ELSE {}) # {}}
 \* the ledgers of a pool agree with the grants made from it (internal bookkeeping; reported as drift)
 Bad_Ledger(P, G) ==
     {p \in DOMAIN P : \/ P[p].gshar # Sum(LAMBDA c : G[c].portion, {c \in DOMAIN G : G[c].pool = p /\ G[c].ctype = "normal"})
